@@ -1,24 +1,29 @@
 (** * C10 — predict_draw is a probability, symmetric, and largest for evenly matched teams.
 
     All theorems are over R with the model instantiated at [RNum Phi Phiinv] and the premise
-    [GaussFacts Phi Phiinv] (used: gf_mono, gf_sym, gf_range, gf_inv, gf_window, gf_star).
+    [GaussCDF Phi Phiinv] (used: gc_mono, gc_sym, gc_range, gc_inv, gc_window, gc_star).
     Domain: beta > 0, at least two teams, every team non-empty.  [sigma >= 0] is not needed
     (the code only uses sigma ** 2).  The two symmetry theorems need no domain hypothesis at all
     (they are pure re-orderings of the same sums) and are stated without.
 
-    Non-vacuity: [GaussFacts Phi Phiinv] cannot be instantiated here (no formalised Gaussian
-    integral is installed), so no closed Example of the premises can be given; the remaining
-    hypotheses (beta > 0, >= 2 non-empty teams, equal sigma lists, a Permutation, equal team
-    means) are plainly satisfiable, e.g. by [teams' = teams] for the relational ones. *)
+    Non-vacuity: the premise [GaussCDF Phi Phiinv] IS instantiated, without any hypothesis,
+    by [GaussInst.GaussCDF_inst : GaussCDF GaussInst.PhiK GaussInst.PhiinvK], where
+    [GaussInst.PhiK x = 1/2 + (int_0^x exp(-t^2/2) dt) / (2 I)] is the standard normal
+    distribution function (the only fact about it that is not proved is the numeric value of
+    its normalising constant, 2 * I = sqrt (2 * pi), which these theorems do not need).
+    Every theorem has a premise-free corollary [<name>_inst] at the end of the file.  The
+    remaining hypotheses (beta > 0, >= 2 non-empty teams, equal sigma lists, a Permutation,
+    equal team means) are plainly satisfiable, e.g. by [teams' = teams] for the relational ones. *)
 From Coq Require Import List Reals Permutation.
 From OSV Require Import Num Core Predict RInst.
+From OSV Require GaussInst.
 From OSV.Lemmas Require C10L.
 Import ListNotations.
 Local Open Scope R_scope.
 
 (** a probability *)
 Theorem C10_range :
-  forall Phi Phiinv : R -> R, GaussFacts Phi Phiinv ->
+  forall Phi Phiinv : R -> R, GaussCDF Phi Phiinv ->
   forall (beta : R) (teams : list (list (rating R))),
     0 < beta -> (2 <= length teams)%nat -> Forall (fun t => t <> []) teams ->
     0 <= @predict_draw R (RNum Phi Phiinv) beta teams <= 1.
@@ -27,7 +32,7 @@ Print Assumptions C10_range.
 
 (** independent of the order of the teams *)
 Theorem C10_symmetric_teams :
-  forall Phi Phiinv : R -> R, GaussFacts Phi Phiinv ->
+  forall Phi Phiinv : R -> R, GaussCDF Phi Phiinv ->
   forall (beta : R) (teams teams' : list (list (rating R))),
     Permutation teams teams' ->
     @predict_draw R (RNum Phi Phiinv) beta teams = @predict_draw R (RNum Phi Phiinv) beta teams'.
@@ -36,7 +41,7 @@ Print Assumptions C10_symmetric_teams.
 
 (** independent of the order of the players inside each team *)
 Theorem C10_symmetric_players :
-  forall Phi Phiinv : R -> R, GaussFacts Phi Phiinv ->
+  forall Phi Phiinv : R -> R, GaussCDF Phi Phiinv ->
   forall (beta : R) (teams teams' : list (list (rating R))),
     Forall2 (@Permutation (rating R)) teams teams' ->
     @predict_draw R (RNum Phi Phiinv) beta teams = @predict_draw R (RNum Phi Phiinv) beta teams'.
@@ -45,7 +50,7 @@ Print Assumptions C10_symmetric_players.
 
 (** two teams, same sigmas: a wider gap between the total mus never raises the draw probability *)
 Theorem C10_two_team_gap :
-  forall Phi Phiinv : R -> R, GaussFacts Phi Phiinv ->
+  forall Phi Phiinv : R -> R, GaussCDF Phi Phiinv ->
   forall (beta : R) (ta tb ta' tb' : list (rating R)),
     0 < beta -> ta <> [] -> tb <> [] ->
     map r_sigma ta' = map r_sigma ta -> map r_sigma tb' = map r_sigma tb ->
@@ -57,7 +62,7 @@ Print Assumptions C10_two_team_gap.
 
 (** any number of teams: same sigmas, all team total mus equalised, never lowers it *)
 Theorem C10_equalise :
-  forall Phi Phiinv : R -> R, GaussFacts Phi Phiinv ->
+  forall Phi Phiinv : R -> R, GaussCDF Phi Phiinv ->
   forall (beta : R) (teams teams' : list (list (rating R))),
     0 < beta -> (2 <= length teams)%nat -> Forall (fun t => t <> []) teams ->
     map (map r_sigma) teams' = map (map r_sigma) teams ->
@@ -66,3 +71,47 @@ Theorem C10_equalise :
     @predict_draw R (RNum Phi Phiinv) beta teams <= @predict_draw R (RNum Phi Phiinv) beta teams'.
 Proof. exact C10L.C10_equalise_l. Qed.
 Print Assumptions C10_equalise.
+
+(** ** Hypothesis-free corollaries: the premise [GaussCDF Phi Phiinv] discharged by the concrete
+    standard normal distribution function [GaussInst.PhiK] and its inverse [GaussInst.PhiinvK]
+    ([GaussInst.GaussCDF_inst]). *)
+Theorem C10_range_inst :
+  forall (beta : R) (teams : list (list (rating R))),
+    0 < beta -> (2 <= length teams)%nat -> Forall (fun t => t <> []) teams ->
+    0 <= @predict_draw R (RNum GaussInst.PhiK GaussInst.PhiinvK) beta teams <= 1.
+Proof. exact (C10_range GaussInst.PhiK GaussInst.PhiinvK GaussInst.GaussCDF_inst). Qed.
+Print Assumptions C10_range_inst.
+
+Theorem C10_symmetric_teams_inst :
+  forall (beta : R) (teams teams' : list (list (rating R))),
+    Permutation teams teams' ->
+    @predict_draw R (RNum GaussInst.PhiK GaussInst.PhiinvK) beta teams = @predict_draw R (RNum GaussInst.PhiK GaussInst.PhiinvK) beta teams'.
+Proof. exact (C10_symmetric_teams GaussInst.PhiK GaussInst.PhiinvK GaussInst.GaussCDF_inst). Qed.
+Print Assumptions C10_symmetric_teams_inst.
+
+Theorem C10_symmetric_players_inst :
+  forall (beta : R) (teams teams' : list (list (rating R))),
+    Forall2 (@Permutation (rating R)) teams teams' ->
+    @predict_draw R (RNum GaussInst.PhiK GaussInst.PhiinvK) beta teams = @predict_draw R (RNum GaussInst.PhiK GaussInst.PhiinvK) beta teams'.
+Proof. exact (C10_symmetric_players GaussInst.PhiK GaussInst.PhiinvK GaussInst.GaussCDF_inst). Qed.
+Print Assumptions C10_symmetric_players_inst.
+
+Theorem C10_two_team_gap_inst :
+  forall (beta : R) (ta tb ta' tb' : list (rating R)),
+    0 < beta -> ta <> [] -> tb <> [] ->
+    map r_sigma ta' = map r_sigma ta -> map r_sigma tb' = map r_sigma tb ->
+    Rabs (fst (@agg R (RNum GaussInst.PhiK GaussInst.PhiinvK) ta) - fst (@agg R (RNum GaussInst.PhiK GaussInst.PhiinvK) tb))
+      <= Rabs (fst (@agg R (RNum GaussInst.PhiK GaussInst.PhiinvK) ta') - fst (@agg R (RNum GaussInst.PhiK GaussInst.PhiinvK) tb')) ->
+    @predict_draw R (RNum GaussInst.PhiK GaussInst.PhiinvK) beta [ta'; tb'] <= @predict_draw R (RNum GaussInst.PhiK GaussInst.PhiinvK) beta [ta; tb].
+Proof. exact (C10_two_team_gap GaussInst.PhiK GaussInst.PhiinvK GaussInst.GaussCDF_inst). Qed.
+Print Assumptions C10_two_team_gap_inst.
+
+Theorem C10_equalise_inst :
+  forall (beta : R) (teams teams' : list (list (rating R))),
+    0 < beta -> (2 <= length teams)%nat -> Forall (fun t => t <> []) teams ->
+    map (map r_sigma) teams' = map (map r_sigma) teams ->
+    (forall t1 t2, In t1 teams' -> In t2 teams' ->
+       fst (@agg R (RNum GaussInst.PhiK GaussInst.PhiinvK) t1) = fst (@agg R (RNum GaussInst.PhiK GaussInst.PhiinvK) t2)) ->
+    @predict_draw R (RNum GaussInst.PhiK GaussInst.PhiinvK) beta teams <= @predict_draw R (RNum GaussInst.PhiK GaussInst.PhiinvK) beta teams'.
+Proof. exact (C10_equalise GaussInst.PhiK GaussInst.PhiinvK GaussInst.GaussCDF_inst). Qed.
+Print Assumptions C10_equalise_inst.
